@@ -103,6 +103,23 @@ impl Channel {
     pub(crate) fn recv(&self, location: Location) {
         self.state
             .branch_disable(Action::MsgRecv, self.is_empty(), location);
+        self.take_msg();
+    }
+
+    /// Receives a message if one is queued. Returns `false` if the channel is
+    /// empty. Never blocks, but is a branch point dependent with sends.
+    pub(crate) fn try_recv(&self, location: Location) -> bool {
+        self.state.branch_action(Action::MsgRecv, location);
+
+        if self.is_empty() {
+            return false;
+        }
+
+        self.take_msg();
+        true
+    }
+
+    fn take_msg(&self) {
         super::execution(|execution| {
             let state = self.state.get_mut(&mut execution.objects);
             let thread_id = execution.threads.active_id();
